@@ -5,7 +5,7 @@
 (*   {"k":"hdr","len":<LenClass>,"body":[tokens],"res":{ok,err,rid,host,port,nextra,v2}}       *)
 (*       a header (random token sequence, beyond MCServe's product) fed as real bytes to the   *)
 (*       real `pktline::git_request`, and what it returned                                     *)
-(*   {"k":"world","def":..,"pol":{rid:..},"present":{..},"private":{..},"allow":{rid:[..]},    *)
+(*   {"k":"world","def":..,"pol":{rid:..},"present":{..},"docok":{..},"private":{..},"allow":{rid:[..]}, *)
 (*    "delegates":{rid:[..]}}   the state a responder node was set up with                     *)
 (*   {"k":"policy","rid":..,"p":..}   a policy row rewritten on the running responder          *)
 (*   {"k":"fetch","n":..,"rid":..,"served":b,"ok":b,"had":b,"has":b}                           *)
@@ -29,7 +29,7 @@ HonestHdr(r) == [len |-> "exact", body |-> <<"CMD", "SP", "SL", r, "NUL", "NUL",
 TInit == /\ l = 1 /\ cur = [k |-> "init"]
          /\ default = "block"
          /\ policy = [r \in Rid |-> "none"]
-         /\ repo = [r \in Rid |-> [present |-> FALSE, private |-> FALSE, allow |-> {}, delegates |-> {}]]
+         /\ repo = [r \in Rid |-> [present |-> FALSE, docok |-> FALSE, private |-> FALSE, allow |-> {}, delegates |-> {}]]
          /\ StreamInit
 
 Get(f, r, dflt) == IF r \in DOMAIN f THEN f[r] ELSE dflt
@@ -37,9 +37,16 @@ Get(f, r, dflt) == IF r \in DOMAIN f THEN f[r] ELSE dflt
 StepWorld(r) ==
     /\ default' = r.def
     /\ policy' = [x \in Rid |-> Get(r.pol, x, "none")]
-    /\ repo' = [x \in Rid |-> [present |-> Get(r.present, x, FALSE), private |-> Get(r.private, x, FALSE),
+    /\ repo' = [x \in Rid |-> [present |-> Get(r.present, x, FALSE), docok |-> Get(r.docok, x, FALSE),
+                               private |-> Get(r.private, x, FALSE),
                                allow |-> ToSet(Get(r.allow, x, <<>>)), delegates |-> ToSet(Get(r.delegates, x, <<>>))]]
     /\ UNCHANGED stream
+
+\* {"k":"doc","rid":..,"ok":b}: the responder's identity head for rid was moved to a revision whose
+\* document cannot be read (ok = false) or back (ok = true)
+StepDoc(r) ==
+    /\ repo' = [repo EXCEPT ![r.rid].docok = r.ok]
+    /\ UNCHANGED <<default, policy, stream>>
 
 StepPolicy(r) ==
     /\ policy' = [policy EXCEPT ![r.rid] = r.p]
@@ -49,7 +56,7 @@ StepPolicy(r) ==
 StepFetch(r) ==
     /\ UNCHANGED world
     /\ pc' = "closed" /\ remote' = r.n /\ hdr' = HonestHdr(r.rid) /\ req' = ParseBody(HonestHdr(r.rid).body)
-    /\ snap' = [seeded |-> Seeded(default, policy, r.rid), present |-> repo[r.rid].present,
+    /\ snap' = [seeded |-> Seeded(default, policy, r.rid), present |-> repo[r.rid].present, docok |-> repo[r.rid].docok,
                 visible |-> VisibleTo(repo, r.rid, r.n)]
     /\ sent' = IF r.served THEN 1 ELSE 0
     /\ authRid' = IF r.served THEN r.rid ELSE NoRid
@@ -69,6 +76,7 @@ TNext == /\ l <= Len(Rec)
          /\ LET r == Rec[l] IN
             CASE r.k = "world"  -> StepWorld(r)
               [] r.k = "policy" -> StepPolicy(r)
+              [] r.k = "doc"    -> StepDoc(r)
               [] r.k = "fetch"  -> StepFetch(r)
               [] r.k = "hdr"    -> StepHdr(r)
 
